@@ -39,3 +39,166 @@ Example C16_src_runs :
   snd (g_decode_hex_byte [103; 48]) = 255 /\
   map g_decode_nibble [47; 48; 57; 58; 64; 65; 70; 71; 96; 97; 102; 103; 255] = [65535; 0; 9; 65535; 65535; 10; 15; 65535; 65535; 10; 15; 65535; 65535].
 Proof. vm_compute. repeat split. Qed.
+
+(* ================= byte / hex decoders and primitive constructors (Src/GenConv.v, proofs in Src/GenConvP.v) ================= *)
+From CB Require Import Src.GenConv Src.GenConvP.
+From CB Require Import Proofs.ConvDigitsP Proofs.ConvBytesP Proofs.ConvCopyP Proofs.LimbsP.
+
+(** the source text of `Uint::from_be_slice` / `from_le_slice` (nested byte-copy loops, `Word::from_be_bytes` / `from_le_bytes`) is
+    the model, for every limb count and every byte string of the length the source asserts (which fits a usize) *)
+Theorem C16_src_from_be_slice_model : forall n bs, length bs = (8 * n)%nat -> Z.of_nat (8 * n) < 2 ^ 64 ->
+  uint_from_be_slice n bs = Some (g_uint_from_be_slice n bs).
+Proof. intros n bs L HB. unfold uint_from_be_slice. rewrite L, Nat.eqb_refl, g_uint_from_be_slice_eq by assumption. reflexivity. Qed.
+Print Assumptions C16_src_from_be_slice_model.
+
+Theorem C16_src_from_le_slice_model : forall n bs, length bs = (8 * n)%nat -> Z.of_nat (8 * n) < 2 ^ 64 ->
+  uint_from_le_slice n bs = Some (g_uint_from_le_slice n bs).
+Proof. intros n bs L HB. unfold uint_from_le_slice. rewrite L, Nat.eqb_refl, g_uint_from_le_slice_eq by assumption. reflexivity. Qed.
+Print Assumptions C16_src_from_le_slice_model.
+
+(** hence the SOURCE decoders return canonical limbs whose value is the positional big- / little-endian value of the bytes *)
+Theorem C16_src_from_be_slice : forall n bs, wfd 256 bs -> length bs = (8 * n)%nat -> Z.of_nat (8 * n) < 2 ^ 64 ->
+  wf (g_uint_from_be_slice n bs) /\ length (g_uint_from_be_slice n bs) = n /\
+  eval (g_uint_from_be_slice n bs) = evalb 256 (rev bs).
+Proof.
+  intros n bs W L HB.
+  destruct (from_be_slice_spec n bs _ W (C16_src_from_be_slice_model n bs L HB)) as (_ & H1 & H2 & H3). auto.
+Qed.
+Print Assumptions C16_src_from_be_slice.
+
+Theorem C16_src_from_le_slice : forall n bs, wfd 256 bs -> length bs = (8 * n)%nat -> Z.of_nat (8 * n) < 2 ^ 64 ->
+  wf (g_uint_from_le_slice n bs) /\ length (g_uint_from_le_slice n bs) = n /\
+  eval (g_uint_from_le_slice n bs) = evalb 256 bs.
+Proof.
+  intros n bs W L HB.
+  destruct (from_le_slice_spec n bs _ W (C16_src_from_le_slice_model n bs L HB)) as (_ & H1 & H2 & H3). auto.
+Qed.
+Print Assumptions C16_src_from_le_slice.
+
+(** `Uint::from_be_hex` / `from_le_hex`: the translator drops `assert!(err == 0, "invalid hex byte")`; `g_be_hex_err` / `g_le_hex_err` is the
+    accumulated error word of the SAME loop (Src/GenConvP.v restates the loop and the two theorems below check by reflexivity that
+    its result component is the generated function) *)
+Theorem C16_src_from_be_hex_loop : forall n cs,
+  g_uint_from_be_hex n cs = (let '(_, _, _, res) := be_hex_loop n cs in res) /\
+  g_be_hex_err n cs = (let '(_, err, _, _) := be_hex_loop n cs in err).
+Proof. intros n cs. split; reflexivity. Qed.
+Print Assumptions C16_src_from_be_hex_loop.
+
+Theorem C16_src_from_le_hex_loop : forall n cs,
+  g_uint_from_le_hex n cs = (let '(_, _, _, res) := le_hex_loop n cs in res) /\
+  g_le_hex_err n cs = (let '(_, err, _, _) := le_hex_loop n cs in err).
+Proof. intros n cs. split; reflexivity. Qed.
+Print Assumptions C16_src_from_le_hex_loop.
+
+(** source = model: limbs and error word *)
+Theorem C16_src_from_be_hex_model : forall n cs, wfd 256 cs -> length cs = (16 * n)%nat -> Z.of_nat (16 * n) < 2 ^ 64 ->
+  uint_from_be_hex n cs = if g_be_hex_err n cs =? 0 then HexOk (g_uint_from_be_hex n cs) else HexInvalid.
+Proof. intros n cs W L HB. apply g_uint_from_be_hex_eq; assumption. Qed.
+Print Assumptions C16_src_from_be_hex_model.
+
+Theorem C16_src_from_le_hex_model : forall n cs, wfd 256 cs -> length cs = (16 * n)%nat -> Z.of_nat (16 * n) < 2 ^ 64 ->
+  uint_from_le_hex n cs = if g_le_hex_err n cs =? 0 then HexOk (g_uint_from_le_hex n cs) else HexInvalid.
+Proof. intros n cs W L HB. apply g_uint_from_le_hex_eq; assumption. Qed.
+Print Assumptions C16_src_from_le_hex_model.
+
+(** strictness: on a string of the asserted length 16 n, the asserted error word of the SOURCE is zero exactly when every character is a
+    hex digit, and then the returned limbs are canonical and their value is the positional value of the digits *)
+Theorem C16_src_from_be_hex_strict : forall n cs, wfd 256 cs -> length cs = (16 * n)%nat -> Z.of_nat (16 * n) < 2 ^ 64 ->
+  (g_be_hex_err n cs = 0 <-> exists ds, hexvals cs = Some ds) /\
+  (forall ds, hexvals cs = Some ds ->
+     wf (g_uint_from_be_hex n cs) /\ length (g_uint_from_be_hex n cs) = n /\ eval (g_uint_from_be_hex n cs) = evalb 16 (rev ds)).
+Proof.
+  intros n cs W L HB. pose proof (from_be_hex_spec n cs W) as S. rewrite (g_uint_from_be_hex_eq n cs L HB W) in S.
+  destruct (Z.eqb_spec (g_be_hex_err n cs) 0) as [E|E].
+  - destruct S as (_ & ds & Hd & H1 & H2 & H3). split.
+    + split; [intros _; exists ds; exact Hd | intros _; exact E].
+    + intros ds' Hd'. rewrite Hd in Hd'. injection Hd' as <-. auto.
+  - destruct S as (_ & Hn). split.
+    + split; [intros E'; contradiction | intros [ds Hd]; rewrite Hd in Hn; discriminate].
+    + intros ds Hd. rewrite Hd in Hn. discriminate.
+Qed.
+Print Assumptions C16_src_from_be_hex_strict.
+
+Theorem C16_src_from_le_hex_strict : forall n cs, wfd 256 cs -> length cs = (16 * n)%nat -> Z.of_nat (16 * n) < 2 ^ 64 ->
+  (g_le_hex_err n cs = 0 <-> exists ds, hexvals cs = Some ds) /\
+  (forall ds, hexvals cs = Some ds ->
+     wf (g_uint_from_le_hex n cs) /\ length (g_uint_from_le_hex n cs) = n /\ eval (g_uint_from_le_hex n cs) = evalb 256 (nib_pairs ds)).
+Proof.
+  intros n cs W L HB. pose proof (from_le_hex_spec n cs W) as S. rewrite (g_uint_from_le_hex_eq n cs L HB W) in S.
+  destruct (Z.eqb_spec (g_le_hex_err n cs) 0) as [E|E].
+  - destruct S as (_ & ds & Hd & H1 & H2 & H3). split.
+    + split; [intros _; exists ds; exact Hd | intros _; exact E].
+    + intros ds' Hd'. rewrite Hd in Hd'. injection Hd' as <-. auto.
+  - destruct S as (_ & Hn). split.
+    + split; [intros E'; contradiction | intros [ds Hd]; rewrite Hd in Hn; discriminate].
+    + intros ds Hd. rewrite Hd in Hn. discriminate.
+Qed.
+Print Assumptions C16_src_from_le_hex_strict.
+
+(** primitive constructors `from_u16 / from_u32 / from_u64` (the source asserts LIMBS >= 1): canonical limbs of value n *)
+Theorem C16_src_from_u16 : forall n v, (1 <= n)%nat -> is_word v ->
+  uint_from_small n v = Some (g_uint_from_u16 n v) /\
+  wf (g_uint_from_u16 n v) /\ length (g_uint_from_u16 n v) = n /\ eval (g_uint_from_u16 n v) = v.
+Proof.
+  intros n v Hn Hv. destruct n as [|n]; [lia|]. split; [apply g_uint_from_u16_eq|].
+  destruct (uint_from_small_spec (S n) v _ Hv (g_uint_from_u16_eq n v)) as (_ & H1 & H2 & H3). auto.
+Qed.
+Print Assumptions C16_src_from_u16.
+
+Theorem C16_src_from_u32 : forall n v, (1 <= n)%nat -> is_word v ->
+  uint_from_small n v = Some (g_uint_from_u32 n v) /\
+  wf (g_uint_from_u32 n v) /\ length (g_uint_from_u32 n v) = n /\ eval (g_uint_from_u32 n v) = v.
+Proof.
+  intros n v Hn Hv. destruct n as [|n]; [lia|]. split; [apply g_uint_from_u32_eq|].
+  destruct (uint_from_small_spec (S n) v _ Hv (g_uint_from_u32_eq n v)) as (_ & H1 & H2 & H3). auto.
+Qed.
+Print Assumptions C16_src_from_u32.
+
+Theorem C16_src_from_u64 : forall n v, (1 <= n)%nat -> is_word v ->
+  uint_from_small n v = Some (g_uint_from_u64 n v) /\
+  wf (g_uint_from_u64 n v) /\ length (g_uint_from_u64 n v) = n /\ eval (g_uint_from_u64 n v) = v.
+Proof.
+  intros n v Hn Hv. destruct n as [|n]; [lia|]. split; [apply g_uint_from_u64_eq|].
+  destruct (uint_from_small_spec (S n) v _ Hv (g_uint_from_u64_eq n v)) as (_ & H1 & H2 & H3). auto.
+Qed.
+Print Assumptions C16_src_from_u64.
+
+(** non-vacuity: the generated decoders run (two limbs; "0123456789abcDEF00000000000000ff"; a 'g' makes the error word non-zero) *)
+Example C16_src_conv_runs :
+  g_uint_from_be_slice 2 [1; 2; 3; 4; 5; 6; 7; 8; 9; 10; 11; 12; 13; 14; 15; 16] = [651345242494996240; 72623859790382856] /\
+  g_uint_from_le_slice 2 [1; 2; 3; 4; 5; 6; 7; 8; 9; 10; 11; 12; 13; 14; 15; 16] = [578437695752307201; 1157159078456920585] /\
+  g_uint_from_be_hex 2 [48; 49; 50; 51; 52; 53; 54; 55; 56; 57; 97; 98; 99; 68; 69; 70; 48; 48; 48; 48; 48; 48; 48; 48; 48; 48; 48; 48; 48; 48; 102; 102] = [255; 81985529216486895] /\
+  g_be_hex_err 2 [48; 49; 50; 51; 52; 53; 54; 55; 56; 57; 97; 98; 99; 68; 69; 70; 48; 48; 48; 48; 48; 48; 48; 48; 48; 48; 48; 48; 48; 48; 102; 102] = 0 /\
+  g_uint_from_le_hex 2 [48; 49; 50; 51; 52; 53; 54; 55; 56; 57; 97; 98; 99; 68; 69; 70; 48; 48; 48; 48; 48; 48; 48; 48; 48; 48; 48; 48; 48; 48; 102; 102] = [17279655951921914625; 18374686479671623680] /\
+  g_le_hex_err 2 [48; 49; 50; 51; 52; 53; 54; 55; 56; 57; 97; 98; 99; 68; 69; 70; 48; 48; 48; 48; 48; 48; 48; 48; 48; 48; 48; 48; 48; 48; 102; 102] = 0 /\
+  g_be_hex_err 2 [48; 49; 50; 51; 52; 53; 54; 55; 56; 57; 97; 98; 99; 68; 69; 70; 48; 48; 48; 48; 48; 48; 48; 48; 48; 48; 48; 48; 48; 48; 102; 103] <> 0 /\ g_le_hex_err 2 [47; 49; 50; 51; 52; 53; 54; 55; 56; 57; 97; 98; 99; 68; 69; 70; 48; 48; 48; 48; 48; 48; 48; 48; 48; 48; 48; 48; 48; 48; 102; 102] <> 0 /\
+  g_uint_from_u16 3 65535 = [65535; 0; 0] /\ g_uint_from_u32 1 7 = [7] /\ g_uint_from_u64 2 (2 ^ 64 - 1) = [18446744073709551615; 0].
+Proof. vm_compute. repeat split; discriminate. Qed.
+
+(** `Uint::from_u128` (lo / hi through `U64::from_u64`, two one-iteration copy loops; the source asserts LIMBS >= 2): canonical limbs of
+    value n, for every limb count >= 2 *)
+Theorem C16_src_from_u128 : forall n v, (2 <= n)%nat -> 0 <= v < 2 ^ 128 ->
+  uint_from_u128 n v = Some (g_uint_from_u128 n v) /\
+  wf (g_uint_from_u128 n v) /\ length (g_uint_from_u128 n v) = n /\ eval (g_uint_from_u128 n v) = v.
+Proof.
+  intros n v Hn Hv. destruct n as [|[|n]]; try lia. pose proof (g_uint_from_u128_eq n v Hv) as E. split; [exact E|].
+  assert (Hv' : 0 <= v < Word.B * Word.B) by (change (Word.B * Word.B) with (2 ^ 128); exact Hv).
+  destruct (uint_from_u128_spec (S (S n)) v _ Hv' E) as (_ & H1 & H2 & H3). auto.
+Qed.
+Print Assumptions C16_src_from_u128.
+
+(** `Int::from_be_hex` is `Self(Uint::from_be_hex(hex))`: the same limbs (read as two's complement by Int), the same asserted error word *)
+Theorem C16_src_int_from_be_hex : forall n cs ds, wfd 256 cs -> length cs = (16 * n)%nat -> Z.of_nat (16 * n) < 2 ^ 64 ->
+  hexvals cs = Some ds ->
+  g_int_from_be_hex n cs = g_uint_from_be_hex n cs /\ g_be_hex_err n cs = 0 /\
+  wf (g_int_from_be_hex n cs) /\ length (g_int_from_be_hex n cs) = n /\ eval (g_int_from_be_hex n cs) = evalb 16 (rev ds).
+Proof.
+  intros n cs ds W L HB Hd. rewrite g_int_from_be_hex_eq. split; [reflexivity|].
+  destruct (C16_src_from_be_hex_strict n cs W L HB) as [Hi Hv]. split; [apply Hi; exists ds; exact Hd|]. apply Hv. exact Hd.
+Qed.
+Print Assumptions C16_src_int_from_be_hex.
+
+Example C16_src_conv_runs2 :
+  g_uint_from_u128 3 (2 ^ 127 + 5) = [5; 2 ^ 63; 0] /\ g_uint_from_u128 2 (2 ^ 128 - 1) = [2 ^ 64 - 1; 2 ^ 64 - 1] /\
+  g_int_from_be_hex 1 [102; 102; 102; 102; 102; 102; 102; 102; 102; 102; 102; 102; 102; 102; 102; 101] = [2 ^ 64 - 2].
+Proof. vm_compute. repeat split. Qed.
